@@ -10,7 +10,7 @@ class Snapshot:
 class Exec:
     def __init__(s, prog, bounds=None, concrete=None, hooks=None):
         s.P = prog; s.L = prog.L
-        b = dict(steps=3000000, depth=400, fanout=64, loop=100000, solver_ms=10000)
+        b = dict(steps=3000000, depth=400, fanout=128, loop=100000, solver_ms=10000)
         if bounds: b.update(bounds)
         s.B = b
         s.concrete = concrete          # list of nondet values (concrete differential mode) or None
@@ -258,6 +258,25 @@ class Exec:
         s.known[k] = (b, r); s.trail.append(('known', k))
         return r != neg
 
+    def implied_bool(s, c1):
+        """True/False if the 1-bit value is determined by the path condition (remembered), None if both outcomes are feasible.
+        Never forks and never records a decision entry."""
+        b = z3.simplify(c1 == 1)
+        if z3.is_true(b): return True
+        if z3.is_false(b): return False
+        neg = False
+        if z3.is_not(b): b = b.arg(0); neg = True
+        k = b.get_id(); kn = s.known.get(k)
+        if kn is not None: return kn[1] != neg
+        ki = s.known.get(('i', k))
+        if ki is not None: return None
+        ft = s.feasible(b); ff = s.feasible(z3.Not(b))
+        if ft and ff:
+            s.known[('i', k)] = (b, None); s.trail.append(('known', ('i', k))); return None
+        if not ft and not ff: raise PathEnd('infeasible')
+        s.known[k] = (b, ft); s.trail.append(('known', k))
+        return ft != neg
+
     def concretize(s, v, what='value'):
         if is_c(v): return v
         v = z3.simplify(v)
@@ -435,10 +454,11 @@ class Exec:
                 if type(cv) is int: regs[dst] = av if cv & 1 else bv_
                 elif isptr or type(av) is tuple or type(bv_) is tuple:
                     if type(av) is int and type(bv_) is int and av == bv_: regs[dst] = av
-                    else:
-                        lab = s.decide([(1, cv == 1), (0, cv == 0)]); regs[dst] = av if lab else bv_
+                    else: regs[dst] = av if s.decide_bool(cv) else bv_
                 else:
-                    regs[dst] = z3.If(cv == 1, bv(av, w), bv(bv_, w))
+                    r = s.implied_bool(cv)
+                    if r is None: regs[dst] = z3.If(cv == 1, bv(av, w), bv(bv_, w))
+                    else: regs[dst] = av if r else bv_
             elif op == 'alloca':
                 _, dst, sz, cnt = ins
                 if type(cnt) is str: cnt = s.concretize(regs[cnt], 'alloca count')
